@@ -5,6 +5,7 @@ import XalanModel.C19.Arena
 import XalanModel.C19.XDeque
 import XalanModel.C19.XBVec
 import XalanModel.C19.RArena
+import XalanModel.C19.AutoPtr
 import Driver.Util
 /-
 xm_c19: (a) replays container operation logs on the allocation-explicit models (same request lines as
@@ -32,6 +33,7 @@ structure St where
   skipPending : Bool := false
   deque : XDeque := { bs := 1 }
   bvec : XBVec := {}
+  ap : APState := {}
   ra : RArena := { bs := 1 }
   raObjs : List (Option (Nat × Nat)) := []     -- objects in creation order: (block object id, slot); none = destroyed
   popNull : Bool := false
@@ -148,6 +150,27 @@ def raStep (s : St) : List String → St × String
     else ({ s with ra := { bs := 1 }, raObjs := [], l := r.2 }, tail r.2 .ok "destroyed")
   | _ => (s, "bad")
 
+def showAP (s : APState) : String :=
+  let one := fun (v : Option Obj) => match v with | some o => s!"{o.1}" | none => "-"
+  s!"p0={one s.p0} p1={one s.p1} loose=" ++ String.join (s.loose.map fun o => s!"{o.1},")
+
+def apStep (s : St) : List String → St × String
+  | ["destroy"] =>
+    let l1 := s.ap.finish s.l
+    ({ s with ap := {}, l := l1 }, tail l1 .ok "destroyed")
+  | ws =>
+    let op : Option APState.Op := match ws with
+      | ["make", i] => i.toNat?.map .make
+      | ["move", i, j] => match i.toNat?, j.toNat? with | some i, some j => some (.move i j) | _, _ => none
+      | ["release", i] => i.toNat?.map .release
+      | ["reset", i] => i.toNat?.map .reset
+      | _ => none
+    match op with
+    | some op =>
+      let r := s.ap.step s.l op
+      ({ s with ap := r.2.1, l := r.2.2 }, tail r.2.2 r.1 (showAP r.2.1))
+    | none => (s, "bad")
+
 def showDeque (d : XDeque) : String :=
   s!"idx={d.idx.items.length} free={d.freeV.items.length} :" ++ String.join (d.elems.map fun x => s!" {x}")
 
@@ -221,6 +244,7 @@ def step (s : St) (ws : List String) : St × String :=
     | "d" :: rest => dequeStep s rest
     | "bv" :: rest => bvecStep s rest
     | "ra" :: rest => raStep s rest
+    | "ap" :: rest => apStep s rest
     | ["v", "destroy"] =>
       -- ~XalanTransformer: XalanDestroy every object the vector holds, then ~XalanVector
       let held := s.created.filter fun c => s.vec.items.contains (Int.ofNat c.1)
